@@ -299,6 +299,7 @@ func (m *Machine) checkSat(c *Term) (SatResult, Model) {
 	if v, ok := m.fact(c); ok && !v {
 		return Unsat, nil
 	}
+	m.checkItemBudget()
 	lvl := m.sol.level
 	m.sol.Push()
 	m.sol.Assert(c)
